@@ -251,7 +251,7 @@ impl LineSymbolMap {
         // Check not overlapping:
         let not_overlapping = bl.windows(2).all(|win| {
             let [(ls, lb), (rs, _)] = win else { unreachable!() };
-            ls + lb.len() <= *rs
+            ls.checked_add(lb.len()).is_some_and(|end| end <= *rs)
         });
 
         match not_overlapping {
@@ -475,7 +475,7 @@ impl DebugSymbols {
         // B doesn't overlap with A because ObjectFile check
         a.line_map.0.extend({
             b.line_map.0.into_iter()
-                .map(|(k, v)| (k + lines, v))
+                .map(|(k, v)| (k.saturating_add(lines), v))
         });
 
         a.src_info = SourceInfo::from_string(a.src_info.src + "\n" + &b.src_info.src);
